@@ -41,13 +41,13 @@ Proof.
   destruct (Nat.eqb (length pts) (length p0)) eqn:E2; cbn [negb]; [|reflexivity].
   apply Nat.eqb_eq in E1, E2.
   destruct pts as [|pt0 pts']; [reflexivity|]. set (pts := pt0 :: pts') in *.
-  destruct (bbox32 D 0 pts) as [bb|]; [|reflexivity].
+  destruct (bbox32 (v_clamp v) D 0 pts) as [bb|]; [|reflexivity].
   rewrite Hold, Hbc.
   assert (Hlen : length pts = length ws) by lia.
   apply (rcb_core_sched_indep spec_float flt fle (f32_mid (v_safe_mid v)) f32_sub f32_add f32_zero f32_inf
            (tol_test tol) (v_probe_max v) f32v flt_irrefl flt_negtrans flt_trans fle_flt inf_valid32' fle_equiv).
   - rewrite Forall_forall. intros it Hit. unfold vitem.
-    assert (Hc : In (co it) (to32 pts)) by (rewrite <- (mk_items_co pts ws 0%N Hlen); apply in_map, Hit).
-    unfold coords_ok in Hok. rewrite Forall_forall in Hok. exact (Hok _ Hc).
+    assert (Hc : In (co it) (to32c (v_clamp v) pts)) by (rewrite <- (mk_items_co (v_clamp v) pts ws 0%N Hlen); apply in_map, Hit).
+    pose proof (coords_okc (v_clamp v) pts Hok) as Hok'. rewrite Forall_forall in Hok'. exact (Hok' _ Hc).
   - rewrite mk_items_ix by exact Hlen. apply seq_NoDup.
 Qed.
